@@ -244,13 +244,21 @@ func (h *history) run(p plan, rng *rand.Rand) {
 		}
 	}
 	var wg sync.WaitGroup
-	start := make(chan struct{})
+	// a spin barrier: all workers leave it within nanoseconds of each other, so that operations that take
+	// well under a microsecond really overlap
+	var ready atomic.Int32
 	per := make([][]rec, p.workers)
 	for w := 0; w < p.workers; w++ {
 		wg.Add(1)
 		go func() {
 			defer wg.Done()
-			<-start
+			ready.Add(1)
+			for spins := 0; ready.Load() < int32(p.workers); spins++ {
+				if spins > 2000 {
+					runtime.Gosched() // the other workers have not been scheduled yet: do not burn their CPU
+					spins = 0
+				}
+			}
 			for i, s := range scripts[w] {
 				key := keys[s.key]
 				r := rec{in: input{Kind: s.kind, Key: key}, client: w}
@@ -298,7 +306,6 @@ func (h *history) run(p plan, rng *rand.Rand) {
 			}
 		}()
 	}
-	close(start)
 	wg.Wait()
 	for _, p := range per {
 		h.recs = append(h.recs, p...)
